@@ -18,7 +18,9 @@ RULE = (
     "A generic parent machine executes, per command event, one actor action with callable params read from the event: "
     "spawnChild (explicit id, optional systemId), spawn_<service> (auto id), sendTo by full id / bare id / systemId / "
     "service key / unknown name, delayed sendTo with a send id, cancel(send id), forwardTo, stopChild; children append "
-    "every received (seq) to their mailbox, can sendParent and spawn a grandchild. Hypothesis draws sequences of <=14 "
+    "every received (seq) to their mailbox, can sendParent, spawn a grandchild (optionally with a systemId) and stopChild it "
+    "themselves; optional epilogue: a fresh child (blocking spawn on sync) spawns a grandchild and then reaches its own "
+    "final state before the parent is stopped. Hypothesis draws sequences of <=14 "
     "commands and virtual-time advances; both engines (sync under the deterministic scheduler, child thread first). "
     "Model: actors {id, systemId, alive, parent}, expected mailboxes, pending delayed sends. After every command: one new "
     "started child per spawn, registered under its id and systemId; each message delivered exactly once, in order, to "
